@@ -54,6 +54,12 @@ EvalV(ve, env, w) ==
     [] ve.k = "var" -> [v |-> Get(w, env, ve.n), w |-> w]
     [] ve.k = "add" -> [v |-> Get(w, env, ve.n) + ve.d, w |-> w]
     [] ve.k = "obs" -> LET x == Get(w, env, ve.n) IN [v |-> x, w |-> Log(w, <<"v", ve.id, x>>)]
+    \* closures of eta shape declared in the function's prolog; the callee / receiver is read when the CALL is evaluated
+    [] ve.k = "gets" -> [v |-> Get(w, env, "sv"), w |-> w]              \* get() with get := func() int { return s.Get() }
+    [] ve.k = "pk"   -> [v |-> Get(w, env, ve.n) + 1, w |-> w]           \* inc1(n) with inc1 := func(x int) int { return pkgInc(x) }
+    [] ve.k = "idg"  -> [v |-> Get(w, env, ve.n), w |-> w]               \* idg(n) with idg := func(x int) int { return ident[int](x) }
+    [] ve.k = "ln"   -> [v |-> 3, w |-> w]                               \* ln("abc") with ln := func(x string) int { return len(x) }
+    [] ve.k = "cnv"  -> [v |-> Get(w, env, ve.n), w |-> w]               \* cnv(int64(n)) with cnv := func(x int64) int { return int(x) }
     [] ve.k = "neg" -> LET r == EvalV(ve.e, env, w) IN [v |-> 0 - r.v, w |-> r.w]
     [] ve.k = "paren" -> EvalV(ve.e, env, w)
     [] ve.k = "w1" -> LET r == EvalV(ve.e, env, w) IN
@@ -71,11 +77,15 @@ Heap0 == [s |-> [cells |-> <<10, 20, 30, 0>>, len |-> 3], arr |-> <<10, 20, 30>>
 Spawn(w, g, a, b) ==
   LET c1 == Alloc(w, a) c2 == Alloc(c1.w, b)
       c3 == Alloc(c2.w, 0 - 1) c4 == Alloc(c3.w, 0 - 1) c5 == Alloc(c4.w, 0 - 7)
+      c6 == Alloc(c5.w, 7) c7 == Alloc(c6.w, 0)
       \* kk, vv: function-level variables assigned by `=` range loops; k, v denote the key / value
       \* variable of the innermost range loop (a cell holding -7 when there is none)
-      env == [a |-> c1.id, b |-> c2.id, kk |-> c3.id, vv |-> c4.id, k |-> c5.id, v |-> c5.id, none |-> c5.id] IN
+      \* sv: the field v of the struct the pointer variable s points to (s := &box{v: 7}; `sets`: s = &box{v: 50})
+      \* cv: which function the function variable cv holds (0: func() bool { return r.T(id) }, 1: func() bool { return false })
+      env == [a |-> c1.id, b |-> c2.id, kk |-> c3.id, vv |-> c4.id, k |-> c5.id, v |-> c5.id, none |-> c5.id,
+              sv |-> c6.id, cv |-> c7.id] IN
   [id |-> Len(w.cos) + 1,
-   w  |-> [c5.w EXCEPT !.cos = Append(@, [k |-> <<[t |-> "seq", ss |-> w.table[g], env |-> env]>>,
+   w  |-> [c7.w EXCEPT !.cos = Append(@, [k |-> <<[t |-> "seq", ss |-> w.table[g], env |-> env]>>,
                                           cur |-> Zero, done |-> FALSE, penv |-> env, heap |-> Heap0])]]
 
 \* ---------------------------------------------------------------- control stack helpers
@@ -170,7 +180,10 @@ Run(i, w) ==
   ELSE IF top.t = "loop" THEN                        \* evaluate the condition, enter the body
      LET w1 == Tick(w) IN
      IF Panicked(w1) THEN [st |-> "panic", w |-> w1]
-     ELSE LET r == IF IsNone(top.c) THEN [b |-> TRUE, w |-> w1] ELSE ReadTape(w1, top.c.id) IN
+     ELSE LET r == IF IsNone(top.c) THEN [b |-> TRUE, w |-> w1]
+                   \* `for cv() {`: the function VARIABLE is read at every evaluation of the condition
+                   ELSE IF top.c.k = "cv" THEN (IF Get(w1, top.env, "cv") = 0 THEN ReadTape(w1, 90) ELSE [b |-> FALSE, w |-> w1])
+                   ELSE ReadTape(w1, top.c.id) IN
        IF Panicked(r.w) THEN [st |-> "panic", w |-> r.w]
        ELSE IF r.b THEN Run(i, SetK(r.w, i, <<[t |-> "seq", ss |-> top.body \o <<EndBody>>, env |-> top.env]>> \o c.k))
        ELSE Run(i, SetK(r.w, i, rest))
@@ -191,6 +204,11 @@ Run(i, w) ==
       [] s.k = "inc"   -> Run(i, SetK(Set(w, env, s.n, Get(w, env, s.n) + 1), i, k1))
       [] s.k = "def"   -> LET d == ApplyInit(s, env, w) IN
                           Run(i, SetK(d.w, i, <<[top EXCEPT !.ss = Tail(@), !.env = d.env]>> \o rest))
+      [] s.k = "effx"  -> LET e == EvalV(s.v, env, w) IN           \* r.E(id, <expr>, 0): observes the value of an expression
+                          IF Panicked(e.w) THEN [st |-> "panic", w |-> e.w]
+                          ELSE Run(i, SetK(Log(e.w, <<"e", s.id, e.v, 0>>), i, k1))
+      [] s.k = "setcv" -> Run(i, SetK(Set(w, c.penv, "cv", 1), i, k1))   \* cv = func() bool { return false }
+      [] s.k = "sets"  -> Run(i, SetK(Set(w, c.penv, "sv", 50), i, k1))  \* s = &box{v: 50}
       [] s.k = "callf" -> Run(i, SetK(Set(w, c.penv, "a", Get(w, c.penv, "a") + 100), i, k1))
       [] s.k = "passign" -> LET x == Get(w, env, "a") a == Log(w, <<"p", s.id, x>>) IN
                             Run(i, SetK(IF Panicked(a) THEN a ELSE Set(a, env, "a", x + 1), i, k1))
